@@ -166,7 +166,8 @@ func runC14(r *Report, tier string) {
 			if mp.key != -2 && mp.key != -3 {
 				continue
 			}
-			// padded values only
+			// padded values only (a padding helper is inlined)
+			mp.val = P.expandOuter(mp.val)
 			if mp.val.Op != "append" {
 				continue
 			}
@@ -492,7 +493,7 @@ func c14CurveTable(r *Report, keyT interface{ String() string }) {
 				for _, in := range b.Instrs {
 					if a, ok := in.(*ssa.Alloc); ok && P.terms.of(a).eq(res[0].Args[0]) {
 						for _, path := range [][]string{{"Curve"}, {"PublicKey", "Curve"}} {
-							if c := p.eng.loadPath(a, path, p.ret); c.Op == "call" || c.Op == "iface" {
+							if c := P.evalCalls(p, p.eng.loadPath(a, path, p.ret), nil, 0); c.Op == "call" || c.Op == "iface" {
 								got[alg] = strings.TrimSuffix(strings.TrimPrefix(strings.TrimPrefix(c.String(), "iface<crypto/elliptic.Curve>("), "call<"), ">()")
 								got[alg] = strings.TrimSuffix(got[alg], ">())")
 							}
